@@ -6,7 +6,9 @@ C07 — executable model of the server's client authentication, mirroring
   suites), CertificateRequest / mandatory client Certificate by comparison on `authPolice`,
   `processCertsFromClient` (which consults the **configured** policy `c.config.ClientAuth`),
   ClientKeyExchange, CertificateVerify demanded iff `len(c.peerCertificates) > 0` and verified
-  with the first certificate's key over the transcript so far, then `readFinished`;
+  with the first certificate's key over the transcript so far (`verifyHandshakeSignature`, case
+  ECC_SM3: type assertion of the key to `*ecdsa.PublicKey`, then the SM2 verification), then
+  `readFinished`;
 * `checkForResumption` / `doResumeHandshake`.
 
 Everything that is a table, a comparison operator or a threshold in the source is a field of
@@ -75,6 +77,9 @@ structure Tables where
   resumeNoPolicyGuard : Bool
   /-- `doResumeHandshake` re-runs `processCertsFromClient` on the recorded certificates -/
   resumeReverify : Bool
+  /-- `verifyHandshakeSignature`: a public key that is not of the asserted type
+  (`pubkey.(*ecdsa.PublicKey)` fails) makes it return an error -/
+  vhsAssertReturns : Bool
   deriving DecidableEq, Repr, Inhabited
 
 namespace Tables
@@ -93,7 +98,7 @@ policies or an operator is not a comparison -/
 def tablesOf (order : List String) (requires : List (String × Bool))
     (promoteOp promoteExcept promoteTo certReqOp certReqRhs certMsgOp certMsgRhs
      verifyOp verifyRhs anyUsage : String) (usages : List String) (ecdheMin : Nat)
-    (cvOp : String) (cvRhs : Nat) (g1 g2 rv : Bool) : Option Tables := do
+    (cvOp : String) (cvRhs : Nat) (g1 g2 rv ar : Bool) : Option Tables := do
   let ord ← order.mapM Policy.ofName
   let req ← (requires.filter (·.2)).mapM (fun r => Policy.ofName r.1)
   let pc ← Cmp.ofString promoteOp
@@ -114,7 +119,7 @@ def tablesOf (order : List String) (requires : List (String × Bool))
          certReqCmp := rc, certReqRhs := rr, certMsgCmp := mc, certMsgRhs := mr,
          verifyCmp := vc, verifyRhs := vr, anyUsage := au, usages := us, ecdheMin := ecdheMin,
          cvCmp := cc, cvRhs := cvRhs, resumeNeedGuard := g1, resumeNoPolicyGuard := g2,
-         resumeReverify := rv }
+         resumeReverify := rv, vhsAssertReturns := ar }
 
 /-- where a handshake stopped -/
 inductive Stage where
@@ -142,6 +147,8 @@ structure Certs where
   peer : Nat
   /-- `c.verifiedChains` was set (non-empty) -/
   chains : Bool
+  /-- the kind of `c.peerCertificates[0].PublicKey` (`none`: no peer certificate) -/
+  leaf : Option KeyKind
   deriving DecidableEq, Repr, Inhabited
 
 /-- verdict of `certs[i].Verify(opts)` for the key usages the source passes -/
@@ -184,9 +191,9 @@ def processCerts (t : Tables) (p : Policy) (ecdhe : Bool) (certs : List Cert) (p
           else if ecdhe then
             match certs[1]? with
             | none => .error .panic
-            | some c1 => if !c1.keyOK then .error .keyType else .ok ⟨certs.length, chains⟩
-          else .ok ⟨certs.length, chains⟩
-      else .ok ⟨certs.length, chains⟩
+            | some c1 => if !c1.keyOK then .error .keyType else .ok ⟨certs.length, chains, some c0.key⟩
+          else .ok ⟨certs.length, chains, some c0.key⟩
+      else .ok ⟨certs.length, chains, none⟩
 
 /-- result of a server handshake -/
 structure Result where
@@ -214,6 +221,16 @@ def certReqSent (t : Tables) (p : Policy) (ecdhe : Bool) : Bool :=
 def certMsgExpected (t : Tables) (p : Policy) (ecdhe : Bool) : Bool :=
   t.cmpPol t.certMsgCmp (authPolice t p ecdhe) t.certMsgRhs
 
+/-- `verifyHandshakeSignature(ECC_SM3, pub, …)` returns nil — every suite of the stacks maps to the
+signature type ECC_SM3 (`typeAndHashFrom`, pinned by `shapeOK`).  `k` is the kind of `pub`
+(`c.peerCertificates[0].PublicKey`; `none`: the nil interface).  An elliptic-curve key passes the
+type assertion and the verdict is the one of `sm2.VerifyASN1WithSM2` (an input: `v.valid`); any
+other key fails the assertion, which is an error iff the source returns one there. -/
+def verifySig (t : Tables) (k : Option KeyKind) (v : CertVerify) : Bool :=
+  match k with
+  | some .sm2 | some .ecOther => v.valid
+  | _ => !t.vhsAssertReturns
+
 /-- the part of `doFullHandshake` after the client's Certificate message (if any), followed by
 `readFinished`; `pc` is what `processCertsFromClient` left in the connection -/
 def afterCerts (t : Tables) (b : Behaviour) (req : Bool) (pc : Certs) (recorded : Nat) : Result :=
@@ -226,7 +243,7 @@ def afterCerts (t : Tables) (b : Behaviour) (req : Bool) (pc : Certs) (recorded 
     match b.cv with
     | none => fail .order false
     | some v =>
-      if !v.valid then fail .pop false
+      if !verifySig t pc.leaf v then fail .pop false
       else if !b.finishedOK then fail .finished true
       else { completed := true, stage := .done, certReq := req, peerCerts := pc.peer,
              chains := pc.chains, popChecked := true, recorded := recorded }
@@ -251,7 +268,7 @@ def full (t : Tables) (p : Policy) (b : Behaviour) : Result :=
       | .ok pc => afterCerts t b req pc pc.peer
   else
     if b.certMsg then fail .order
-    else afterCerts t b req ⟨0, false⟩ 0
+    else afterCerts t b req ⟨0, false, none⟩ 0
 
 def serverCompletes (t : Tables) (p : Policy) (b : Behaviour) : Bool := (full t p b).completed
 
@@ -292,7 +309,7 @@ def resume (t : Tables) (p : Policy) (r : Resume) : ROutcome :=
   else
     let pc : Except Stage Certs :=
       if t.resumeReverify then processCerts t p r.ecdhe r.recorded true
-      else .ok ⟨r.recorded.length, false⟩       -- c.peerCertificates = sessionState.peerCertificates
+      else .ok ⟨r.recorded.length, false, r.recorded.head?.map (·.key)⟩   -- c.peerCertificates = sessionState.peerCertificates
     match pc with
     | .error s => .resumedFailed s
     | .ok c => if r.finishedOK then .resumedDone c.peer c.chains else .resumedFailed .finished
@@ -304,7 +321,8 @@ def resumedCompletes (t : Tables) (p : Policy) (r : Resume) : Bool :=
 
 /-- the client behaviour that created a session, as far as the session still shows it: the
 recorded certificates (re-judged now); a session only ever records certificates of a completed
-handshake, whose CertificateVerify was therefore checked (`C07_session_pop`) -/
+handshake, whose CertificateVerify was therefore checked under the first certificate's key
+(`C07_session_pop`) -/
 def origOf (r : Resume) : Behaviour :=
   { ecdhe := r.ecdhe, certMsg := !r.recorded.isEmpty, certs := r.recorded, parseOK := true,
     kxOK := true, cv := if r.recorded.isEmpty then none else some ⟨true, true⟩, finishedOK := true }
